@@ -141,13 +141,18 @@ func run(env *Env, chk *Check, res *Result) (int, error) {
 			r.XmxMB = 8000
 		}
 		wg.Add(1)
-		go func(di int, r TLCRun) {
+		go func(di int, r TLCRun, d Design) {
 			defer wg.Done()
 			sem <- struct{}{}
 			defer func() { <-sem }()
+			if d.Engine == "apalache" {
+				st, err := ApalacheRun(env.SpecDir, d.Module, d.Cfg, d.Inv, d.Depth, r.XmxMB, r.Timeout, filepath.Join(env.Tmp, fmt.Sprintf("apalache-%d", di)))
+				results[di] = designResult{st, err}
+				return
+			}
 			st, err := r.Run()
 			results[di] = designResult{st, err}
-		}(di, r)
+		}(di, r, d)
 	}
 	wg.Wait()
 	for di, d := range selected {
@@ -167,7 +172,11 @@ func run(env *Env, chk *Check, res *Result) (int, error) {
 		} else if !st.OK {
 			return 2, MachineryError{fmt.Sprintf("design %s (%s/%s): TLC reports %q on the specification itself — the specification is wrong or models a defect; not a verdict about the code:\n%s", d.Name, d.Module, d.Cfg, st.Violated, tail(st.Output, 4000))}
 		} else {
-			env.Logf("design %s: %d distinct states, %d generated, depth %d, %.1fs", d.Name, st.Distinct, st.Generated, st.Depth, st.Seconds)
+			if d.Engine == "apalache" {
+				env.Logf("design %s: Apalache reports no error for invariant %s on every execution of length %d, %.1fs", d.Name, d.Inv, d.Depth, st.Seconds)
+			} else {
+				env.Logf("design %s: %d distinct states, %d generated, depth %d, %.1fs", d.Name, st.Distinct, st.Generated, st.Depth, st.Seconds)
+			}
 		}
 		for _, a := range d.MustCover {
 			if st.Coverage[a] == 0 {
